@@ -109,6 +109,9 @@ package req
 //@   ghostset after RequestHeader.SetContentLength: rwCL = arg1
 // (the URL-encoded form is the body of last resort for EVERY method: a request is only declared bodiless - IgnoreBody
 // consulted, header written without a body - after the post args were asked for)
+// (the Basic credentials derived from URI userinfo use the standard base64 alphabet of RFC 7617 - what every server decodes)
+//@   assert before Encode: arg0 == base64.StdEncoding
+//@   assert before EncodedLen: arg0 == base64.StdEncoding
 //@   ghostset-at-entry rwPA = false
 //@   ghostset after Request.PostArgString: rwPA = true
 //@   assert before RequestHeader.IgnoreBody: rwPA
